@@ -22,6 +22,7 @@ PYVC_MODULES = [
     "contracts.modes",
     "contracts.contraction",
     "contracts.koszul",
+    "contracts.sectors",
 ]
 
 BASE = [A_BUILTINS, A_INT, A_TERM, A_NUMPY, A_BOUNDED, A_USER]
